@@ -4,6 +4,15 @@ from harness.core import Target
 from harness import tie
 
 PID = "C42"
+
+# The reachability lists of the larger detector ties (counters of 10..12 bits) are deep enough to overflow coqc's default
+# 8 MB stack; child processes inherit the raised limit.
+try:
+    import resource
+    _soft, _hard = resource.getrlimit(resource.RLIMIT_STACK)
+    resource.setrlimit(resource.RLIMIT_STACK, (_hard, _hard))
+except Exception:      # pragma: no cover
+    pass
 TIE_IMPORTS = "From LunaModel Require Import Lfps Lfps_proofs.\n"
 
 # The USB 3.2 table 6-30 timings, as exact rationals (seconds).  The windows in clock cycles are recomputed here
@@ -102,18 +111,20 @@ def mk_xcvr(f):
 
 
 def targets(tier):
+    q = tier == "quick"
     ts = [mk_det("poll", 5_000_000),              # 3..7 / 30..70
           mk_det("reset", 500),                    # 40..60
-          mk_det_custom(2, 3, 5, 8), mk_det_custom(2, 4),
-          mk_det("poll", 125_000_000, big=True),   # LUNA's default clock: 75..175 / 750..1750
+          mk_det_custom(2, 3, 5, 8),
+          # LUNA's default clock, 75..175 / 750..1750: correspondence + oracle (quick), R tie on all traces (thorough)
+          mk_det("poll", 125_000_000, big=q),
           mk_gen(1_000_000), mk_gen_custom(2, 5),
-          mk_gen(125_000_000, big=True),
+          mk_gen(125_000_000, big=q),
           mk_xcvr(1_000_000)]
-    if tier != "quick":
-        ts += [mk_det("poll", 2_000_000), mk_det("poll", 25_000_000), mk_det("ping", 10_000),
-               mk_det("reset", 1000), mk_det_custom(1, 1, 2, 2), mk_det_custom(1, 5, 6, 6), mk_det_custom(3, 3, 4, 9),
+    if not q:
+        ts += [mk_det("poll", 2_000_000), mk_det("poll", 25_000_000), mk_det("ping", 1000),
+               mk_det("reset", 1000), mk_det_custom(2, 4), mk_det_custom(1, 1, 2, 2), mk_det_custom(1, 5, 6, 6), mk_det_custom(3, 3, 4, 9),
                mk_det_custom(1, 1),
-               mk_det("poll", 62_500_000),          # R tie at a clock LUNA really uses (ECP5 PIPE at 62.5 MHz)
+               mk_det("poll", 62_500_000),          # a clock LUNA really uses (ECP5 PIPE at 62.5 MHz)
                mk_det("poll", 250_000_000, big=True),
                mk_gen(8_000_000), mk_gen(62_500_000), mk_gen_custom(1, 2), mk_gen_custom(3, 4),
                mk_gen(250_000_000, big=True),
@@ -143,7 +154,7 @@ def envelope(rng, w, n_bursts, style):
 
 def det_traces(t, rng, tier):
     n = 24 if tier == "quick" else 100
-    if t.big:
+    if t.big or (t.w[3] or t.w[1]) > 300:      # long windows: long traces, fewer of them
         n = 4 if tier == "quick" else 12
     out = []
     for k in range(n):
@@ -156,7 +167,7 @@ def det_traces(t, rng, tier):
             for _ in range(rng.randint(1, 3)):
                 bits += envelope(rng, t.w, rng.randint(1, 3), rng.choice(["good", "edge", "rand"]))
         else:
-            bits = envelope(rng, t.w, rng.randint(2, 5 if not t.big else 3), style)
+            bits = envelope(rng, t.w, rng.randint(2, 5 if n > 12 else 3), style)
         out.append([{"signaling_received": b} for b in bits])
     return out
 
@@ -326,9 +337,9 @@ ASSUMPTIONS = [
     "generator: pattern length R = ceil(f * 10 us) exactly; at some clock frequencies (e.g. 5, 10, 50, 100 MHz) the code's float "
     "product f*10.0e-6 exceeds the exact value by one ulp and ceil() yields R+1 -- tie frequencies are chosen where both agree "
     "(1, 8, 62.5, 125, 250 MHz)",
-    "R ties: detector at polling 5 MHz, reset 500 Hz and made-up windows (quick) + polling 2/25/62.5 MHz, ping 10 kHz, reset 1 kHz, "
-    "degenerate windows (thorough); generator at 1 MHz and (B,R)=(2,5) (quick) + 8/62.5 MHz, (1,2), (3,4) (thorough); "
-    "correspondence + run-length-specification oracle at 125 MHz (quick) and 250 MHz (thorough); transceiver (3 detectors + generator "
+    "R ties: detector at polling 5 MHz, reset 500 Hz and made-up windows (quick) + polling 2/25/62.5 MHz, ping 1 kHz, reset 1 kHz, "
+    "62.5 and 125 MHz (LUNA's clocks), degenerate windows (thorough); generator at 1 MHz and (B,R)=(2,5) (quick) + 8/62.5/125 MHz, "
+    "(1,2), (3,4) (thorough); correspondence + run-length-specification oracle at 125 MHz (quick) and 250 MHz (thorough); transceiver (3 detectors + generator "
     "+ cycles_sent) correspondence at 1 MHz (quick) and 125 MHz (thorough)",
 ]
 LEVEL_TEXT = ("Machine-checked proof about models, tied to the code. Detector: for every window configuration (hypotheses above) "
